@@ -279,6 +279,14 @@ pub fn run(cfg: &Cfg) -> Report {
         let f = gen_failing(&mut rng, &mut ids, &me, &other, case % 40 == 7);
         let depth = rng.below(4);
         let (kpre, ctx, ctx_seq, has_par) = gen_context(&mut rng, &mut ids, &me, depth, true);
+        let mut kpre = kpre;
+        if rng.chance(1, 4) {
+            // a join that is still waiting when the failure happens: a local call whose argument comes from
+            // another peer sits in a par whose other side is complete
+            let n = ids.next();
+            kpre.insert(0, format!("(par (call \"{other}\" (\"svc\" \"f{n}\") [] late{n}) (par (call \"{me}\" (\"svc\" \"g{n}\") [late{n}]) (null)))"));
+            st.inc("pairs_after_a_pending_join", 1);
+        }
         let obs = format!("(call \"{me}\" (\"svc\" \"obs\") [:error:.$.error_code :error:.$.message %last_error%.$.error_code])");
         let caught_f = format!("(xor {} {obs})", f.f);
         let build = |ctx: &str, hole: &str| {
